@@ -43,6 +43,11 @@ res = {}
 if meta['confirmed']:
     rc, out = run('git -C /repo apply %s' % os.path.join(dst, 'patch.diff'), '/verif')
     if rc != 0:
+        # /repo has moved on since the worktree was made (a later fix: commit): merge
+        rc, out = run('git -C /repo apply --3way %s && git -C /repo reset -q' % os.path.join(dst, 'patch.diff'), '/verif')
+        if rc != 0:
+            run('git -C /repo reset -q; git -C /repo checkout -- .', '/verif')
+    if rc != 0:
         meta['apply_error'] = out[-500:]
     else:
         try:
